@@ -16,9 +16,11 @@ META = {
         '(events, start step, resolution) on every path, for all eight '
         'sequence types, with tempo / resolution / velocity-bin / shift-limit '
         'parameters from the grids of the property. The numeric half ("at any '
-        'tempo") is lemma L-C06: with one relative rounding error per floating '
-        'operation of to_sequence and quantize_to_step the recovered step is '
-        'exact for every qpm in [20,300] and step <= 10^5 (z3 nlsat).',
+        'tempo") is lemma L-C06, generated from the ASTs of the renderers and '
+        'of quantize_to_step: with one relative rounding error per floating '
+        'operation the step recovered from every grid time a renderer writes '
+        'is the step it was written for, for every qpm in [20,300], every '
+        'resolution of the property\'s grids and steps <= 10^5 (z3 nlsat).',
     'level_note':
         'Trusted: z3, symproto/np-lite (validated per sampled path on the real '
         'stack). E1 computes with the exact rational value of every float '
@@ -53,7 +55,13 @@ META = {
         'limits come from the grids listed in the property (concrete per job); '
         'steps <= 8',
         'L-C06: standard model of floating point (each operation has relative '
-        'error <= 2^-53), no overflow/underflow in the stated ranges',
+        'error <= 2^-53), no overflow/underflow in the stated ranges; terms '
+        'generated from the ASTs of the seven to_sequence renderers (every '
+        'assignment of the form x.<time> = A * seconds_per_step + '
+        'sequence_start_time), steps_per_quarter_to_steps_per_second and '
+        'quantize_to_step; qpm in [20,300], step quantities and start_step in '
+        '[0,1e5]; a standard-model counterexample is reported only when a '
+        'concrete instance near it fails on the real classes',
     ],
     'bounds': {
         'quick': 'N<=2 notes on <=6 steps; 2-3 tempi per type',
@@ -309,57 +317,356 @@ HARNESSES = {
 }
 
 
+# (module, method defining seconds_per_step, method assigning the times, mode)
+_RENDERERS = [
+    ('melodies_lib', 'Melody.to_sequence', 'Melody.to_sequence', 'metric'),
+    ('drums_lib', 'DrumTrack.to_sequence', 'DrumTrack.to_sequence', 'metric'),
+    ('chords_lib', 'ChordProgression.to_sequence',
+     'ChordProgression.to_sequence', 'metric'),
+    ('pianoroll_lib', 'PianorollSequence.to_sequence',
+     'PianorollSequence.to_sequence', 'metric'),
+    ('performance_lib', 'MetricPerformance.to_sequence',
+     'BasePerformance._to_sequence', 'metric'),
+    ('performance_lib', 'Performance.to_sequence',
+     'BasePerformance._to_sequence', 'absolute'),
+    ('performance_lib', 'NotePerformance.to_sequence',
+     'NotePerformance.to_sequence', 'absolute'),
+]
+_TIME_FIELDS = ('start_time', 'end_time', 'time', 'total_time')
+
+
+def _grid_obligations(modname, q_sps, q_times, mode, res):
+  """For every assignment `<x>.<time field> = A * seconds_per_step +
+  sequence_start_time` of a renderer, the term of the step that
+  quantize_to_step recovers from it, in the standard model of binary64, and
+  the step A + start_step it must equal.  Everything is read from the ASTs of
+  the working tree; anything that does not fit the pattern makes the lemma
+  inconclusive.  Returns [(label, variables, base constraints, q, want)]."""
+  import ast  # pylint: disable=g-import-not-at-top
+  import z3  # pylint: disable=g-import-not-at-top
+  from engine import fpk  # pylint: disable=g-import-not-at-top
+  f_sps, _ = fpk.get_function(modname, q_sps)
+  f_times, _ = fpk.get_function(modname, q_times)
+  f_q, _ = fpk.get_function('sequences_lib', 'quantize_to_step')
+  f_conv, _ = fpk.get_function('sequences_lib',
+                               'steps_per_quarter_to_steps_per_second')
+  cutoff = fpk.get_constant('sequences_lib', 'QUANTIZE_CUTOFF')
+  out = []
+  assigns = [n for n in ast.walk(f_times) if isinstance(n, ast.Assign) and
+             len(n.targets) == 1 and isinstance(n.targets[0], ast.Attribute)
+             and n.targets[0].attr in _TIME_FIELDS and
+             'seconds_per_step' in ast.unparse(n.value)]
+  if not assigns:
+    raise fpk.UnsupportedConstruct('%s.%s assigns no grid times' %
+                                   (modname, q_times))
+  for asg in sorted(assigns, key=lambda n: n.lineno):
+    tr = fpk.StdModel(consts={'QUANTIZE_CUTOFF': cutoff}, tag='g')
+    qpm = z3.Real('qpm')
+    start = z3.Int('start_step')
+    rv = fpk.V(z3.IntVal(res), 'int')
+    env = {'qpm': fpk.V(qpm, 'fp'), 'self.start_step': fpk.V(start, 'int'),
+           'self.steps_per_quarter': rv, 'self._steps_per_quarter': rv,
+           'self.steps_per_second': rv}
+    base = [qpm >= 20, qpm <= 300, start >= 0, start <= 100000]
+    tr.declare_nonneg(qpm)
+    tr.declare_nonneg(start)
+    # seconds_per_step
+    sps_as = [n for n in ast.walk(f_sps) if isinstance(n, ast.Assign) and
+              isinstance(n.targets[0], ast.Name) and
+              n.targets[0].id == 'seconds_per_step']
+    if len(sps_as) != 1:
+      raise fpk.UnsupportedConstruct('seconds_per_step not assigned once in '
+                                     '%s.%s' % (modname, q_sps))
+    env['seconds_per_step'] = tr.expr(sps_as[0].value, env)
+    # sequence_start_time: parameter default, then (aug)assignments in order
+    params = [a.arg for a in f_times.args.args]
+    if 'sequence_start_time' in params:
+      k = params.index('sequence_start_time') - (
+          len(params) - len(f_times.args.defaults))
+      env['sequence_start_time'] = tr.expr(f_times.args.defaults[k], {})
+    for n in sorted([n for n in ast.walk(f_times) if
+                     isinstance(n, (ast.Assign, ast.AugAssign))],
+                    key=lambda n: n.lineno):
+      tgt = n.targets[0] if isinstance(n, ast.Assign) else n.target
+      if not (isinstance(tgt, ast.Name) and tgt.id == 'sequence_start_time'):
+        continue
+      if isinstance(n, ast.Assign):
+        env['sequence_start_time'] = tr.expr(n.value, env)
+      else:
+        env['sequence_start_time'] = tr.binop(
+            n.op, env['sequence_start_time'], tr.expr(n.value, env), n)
+    if 'sequence_start_time' not in env:
+      raise fpk.UnsupportedConstruct('sequence_start_time not found')
+    # pattern A * seconds_per_step + sequence_start_time
+    v = asg.value
+    ok = isinstance(v, ast.BinOp) and isinstance(v.op, ast.Add)
+    a_node = None
+    if ok:
+      prod, off = v.left, v.right
+      if isinstance(prod, ast.Name):
+        prod, off = off, prod
+      ok = (isinstance(off, ast.Name) and off.id == 'sequence_start_time' and
+            isinstance(prod, ast.BinOp) and isinstance(prod.op, ast.Mult))
+      if ok:
+        if ast.unparse(prod.right) == 'seconds_per_step':
+          a_node = prod.left
+        elif ast.unparse(prod.left) == 'seconds_per_step':
+          a_node = prod.right
+        else:
+          ok = False
+    if not ok:
+      raise fpk.UnsupportedConstruct(
+          'time expression not of the form A * seconds_per_step + '
+          'sequence_start_time: %s (line %d)' % (ast.unparse(v), asg.lineno))
+    # free step quantities of A: non-negative integers
+    for sub in ast.walk(a_node):
+      key = None
+      if isinstance(sub, ast.Name) and sub.id not in env:
+        key = sub.id
+      elif isinstance(sub, (ast.Call, ast.Attribute, ast.Subscript)):
+        key = ast.unparse(sub)
+      if key and key not in env:
+        fv = z3.Int('v_' + ''.join(ch if ch.isalnum() else '_' for ch in key))
+        env[key] = fpk.V(fv, 'int')
+        tr.declare_nonneg(fv)
+        base += [fv >= 0, fv <= 100000]
+    a_val = tr.expr(a_node, env)
+    if a_val.kind != 'int':
+      raise fpk.UnsupportedConstruct('step quantity is not an integer')
+    t = tr.expr(v, env)
+    if mode == 'metric':
+      conv_params = [a.arg for a in f_conv.args.args]
+      sps2 = tr.function(f_conv, {conv_params[0]: rv,
+                                  conv_params[1]: fpk.V(qpm, 'fp')})
+    else:
+      sps2 = rv
+    qparams = [a.arg for a in f_q.args.args]
+    q = tr.function(f_q, {qparams[0]: t, qparams[1]: sps2})
+    if q.kind != 'int':
+      raise fpk.UnsupportedConstruct('quantize_to_step does not return an int')
+    out.append(('%s line %d: %s' % (q_times, asg.lineno, ast.unparse(asg)),
+                base + list(tr.side), q.t, a_val.t + start))
+  return out
+
+
+_PROBE_CLASS = {
+    'Melody.to_sequence': 'melody', 'DrumTrack.to_sequence': 'drums',
+    'ChordProgression.to_sequence': 'chords',
+    'PianorollSequence.to_sequence': 'pianoroll',
+    'MetricPerformance.to_sequence': 'metric_perf',
+    'Performance.to_sequence': 'perf'}
+
+
+def _tempo_probe(mod, cls, res, qpm, start, step):
+  """Renders one event at relative step `step` of a sequence starting at
+  `start` with the real class, quantizes the result with the real quantizer
+  and returns (recovered absolute step, expected absolute step)."""
+  sl = mod('sequences_lib')
+  if cls == 'melody':
+    ml = mod('melodies_lib')
+    ev = ml.Melody([ml.MELODY_NO_EVENT] * step + [60], start_step=start,
+                   steps_per_quarter=res)
+    q = sl.quantize_note_sequence(ev.to_sequence(qpm=qpm), res)
+    return q.notes[0].quantized_start_step, start + step
+  if cls == 'drums':
+    dl = mod('drums_lib')
+    ev = dl.DrumTrack([frozenset()] * step + [frozenset([36])],
+                      start_step=start, steps_per_quarter=res)
+    q = sl.quantize_note_sequence(ev.to_sequence(qpm=qpm), res)
+    return q.notes[0].quantized_start_step, start + step
+  if cls == 'chords':
+    cl = mod('chords_lib')
+    ev = cl.ChordProgression(['N.C.'] * step + ['C'], start_step=start,
+                             steps_per_quarter=res)
+    q = sl.quantize_note_sequence(ev.to_sequence(qpm=qpm), res)
+    return ([ta.quantized_step for ta in q.text_annotations
+             if ta.text == 'C'][0], start + step)
+  if cls == 'pianoroll':
+    pl = mod('pianoroll_lib')
+    ev = pl.PianorollSequence(events_list=[()] * step + [(60,)],
+                              steps_per_quarter=res, start_step=start)
+    q = sl.quantize_note_sequence(ev.to_sequence(qpm=qpm), res)
+    return q.notes[0].quantized_start_step, start + step
+  if cls in ('metric_perf', 'perf'):
+    pf = mod('performance_lib')
+    PE = pf.PerformanceEvent
+    if cls == 'metric_perf':
+      ev = pf.MetricPerformance(steps_per_quarter=res, start_step=start)
+    else:
+      ev = pf.Performance(steps_per_second=res, start_step=start)
+    left = step
+    while left > 0:
+      k = min(left, ev.max_shift_steps)
+      ev.append(PE(PE.TIME_SHIFT, k))
+      left -= k
+    ev.append(PE(PE.NOTE_ON, 60))
+    ev.append(PE(PE.TIME_SHIFT, 1))
+    ev.append(PE(PE.NOTE_OFF, 60))
+    if cls == 'metric_perf':
+      q = sl.quantize_note_sequence(ev.to_sequence(qpm=qpm), res)
+    else:
+      q = sl.quantize_note_sequence_absolute(ev.to_sequence(), res)
+    return q.notes[0].quantized_start_step, start + step
+  raise ValueError(cls)
+
+
+def _search_real(cls, res, qpm, start, step):
+  """Looks for a concrete failing step near a standard-model counterexample by
+  running the real renderer + quantizer (in a subprocess on the real stack)."""
+  import json  # pylint: disable=g-import-not-at-top
+  import os  # pylint: disable=g-import-not-at-top
+  import subprocess  # pylint: disable=g-import-not-at-top
+  import sys  # pylint: disable=g-import-not-at-top
+  verif = os.path.dirname(os.path.dirname(os.path.abspath(__file__)))
+  code = ('import sys, json\nsys.path.insert(0, %r)\n'
+          'from engine import loader\nfrom props import c06\n'
+          'env = loader.RealEnv()\ncls, res, qpm, start, step = %r\n'
+          'found = None\n'
+          'cands = sorted(set(min(100000, max(0, step * m + d))'
+          ' for m in (1, 2, 4, 8, 16, 32, 64) for d in range(-20, 21)),'
+          ' key=lambda s: abs(s - step))\n'
+          'for s in cands:\n'
+          '  try:\n'
+          '    got, want = c06._tempo_probe(env.mod, cls, res, qpm, start, s)\n'
+          '  except Exception as e:\n'
+          '    got, want = repr(e), None\n'
+          '  if got != want:\n'
+          '    found = {"step": s, "got": got, "want": want}\n'
+          '    break\n'
+          'print(json.dumps(found))' % (verif, (cls, res, qpm, start, step)))
+  p = subprocess.run([sys.executable, '-c', code], stdout=subprocess.PIPE,
+                     stderr=subprocess.PIPE, text=True, timeout=600)
+  try:
+    return json.loads(p.stdout.strip().splitlines()[-1])
+  except (ValueError, IndexError):
+    return None
+
+
+def h_tempo_witness(c):
+  """Replay of a confirmed L-C06 counterexample on the real classes."""
+  v = c.values
+  got, want = _tempo_probe(c.mod, v['cls'], int(v['res']), float(v['qpm']),
+                           int(v['start']), int(v['step']))
+  c.check(got == want, 'L-C06 a rendered grid time is not recovered by '
+                       'quantize_to_step')
+
+
 def _lemma(job):
-  """L-C06: step recovered exactly at any tempo (standard model of FP)."""
+  """L-C06: every grid time a renderer writes is recovered by
+  quantize_to_step as the step it was written for, at any tempo (standard
+  model of binary64; terms generated from the ASTs of the working tree)."""
   import time  # pylint: disable=g-import-not-at-top
   import z3  # pylint: disable=g-import-not-at-top
-  u = z3.Q(1, 2**53)
+  from engine import fpk  # pylint: disable=g-import-not-at-top
   obligations = []
-  for spq in (1, 2, 3, 4, 6, 8, 12, 24):
-    qpm, step = z3.Reals('qpm step')
-    ds = z3.Reals('d1 d2 d3 d4 d5 d6 d7')
-    base = [qpm >= 20, qpm <= 300, step >= 0, step <= 100000, z3.IsInt(step)]
-    base += [z3.And(d >= -u, d <= u) for d in ds]
-    d1, d2, d3, d4, d5, d6, d7 = ds
-    # to_sequence: seconds_per_step = fl(fl(60.0/qpm)/spq); t = fl(step*sps)
-    sec = (60 / qpm) * (1 + d1) / spq * (1 + d2)
-    t = step * sec * (1 + d3)
-    # quantize: steps_per_second = fl(fl(spq*qpm)/60.0); x = fl(t*sps);
-    # q = int(fl(x + 0.5))
-    sps = (spq * qpm) * (1 + d4) / 60 * (1 + d5)
-    x = t * sps * (1 + d6)
-    y = (x + z3.Q(1, 2)) * (1 + d7)
-    t0 = time.time()
-    s = z3.Solver()
-    s.set('timeout', 120000)
-    s.add(base)
-    s.add(z3.Or(y < step, y >= step + 1))
-    r = str(s.check())
-    obligations.append({
-        'lemma': 'L-C06[spq=%d]' % spq,
-        'statement': 'forall qpm in [20,300], integer step in [0,1e5], 7 '
-                     'relative errors |d|<=2^-53: step <= fl(fl(fl(step*fl(fl('
-                     '60/qpm)/spq))*fl(fl(spq*qpm)/60))+0.5) < step+1',
-        'expect': 'unsat', 'result': r, 'discharged': r == 'unsat',
-        'seconds': round(time.time() - t0, 3), 'backend': 'z3 nlsat'})
-    s2 = z3.Solver()
-    s2.add(base)
-    r2 = str(s2.check())
-    obligations.append({'lemma': 'L-C06-twin[spq=%d]' % spq,
-                        'statement': 'assumptions satisfiable', 'expect': 'sat',
-                        'result': r2, 'discharged': r2 == 'sat', 'seconds': 0,
-                        'backend': 'z3 nlsat'})
-  out = {'obligations': obligations, 'status': 'ok',
+  violations = []
+  unconfirmed = []
+  seen = {}
+  status, err = 'ok', None
+  grid = job['params'].get('resolutions') or {
+      'metric': [1, 2, 3, 4, 6, 8, 12, 24], 'absolute': [10, 31, 100, 250]}
+  t_budget = time.time() + job.get('budget_s', 600) - 20
+  for modname, q_sps, q_times, mode in _RENDERERS:
+    for res in grid[mode]:
+      try:
+        obs = _grid_obligations(modname, q_sps, q_times, mode, res)
+      except fpk.UnsupportedConstruct as e:
+        return {'status': 'inconclusive', 'obligations': obligations,
+                'error': 'cannot regenerate L-C06 from the source (%s.%s): %s'
+                         % (modname, q_times, e)}
+      for label, base, q, want in obs:
+        s = z3.Solver()
+        s.add(base)
+        s.add(q != want)
+        key = s.sexpr()
+        name = 'L-C06[%s %s=%d] %s' % (
+            modname, 'spq' if mode == 'metric' else 'sps', res, label)
+        if key in seen:
+          obligations.append({'lemma': name, 'expect': 'unsat',
+                              'result': seen[key], 'discharged':
+                                  seen[key] == 'unsat', 'seconds': 0,
+                              'statement': 'same query as an earlier lemma',
+                              'backend': 'z3 nlsat (deduplicated)'})
+          continue
+        if time.time() > t_budget:
+          status, err = 'inconclusive', 'budget exhausted at %s' % name
+          break
+        s.set('timeout', 120000)
+        t0 = time.time()
+        r = str(s.check())
+        seen[key] = r
+        obligations.append({
+            'lemma': name, 'statement':
+                'forall qpm in [20,300], start_step and step quantities in '
+                '[0,1e5], relative errors |d| <= 2^-53 per operation: '
+                'quantize_to_step(time written by the renderer) == the step '
+                'it was written for',
+            'expect': 'unsat', 'result': r, 'discharged': r == 'unsat',
+            'seconds': round(time.time() - t0, 3), 'backend': 'z3 nlsat'})
+        if r == 'sat':
+          m = s.model()
+
+          def val(nm):
+            for dcl in m.decls():
+              if dcl.name() == nm:
+                x = m[dcl]
+                if z3.is_int_value(x):
+                  return x.as_long()
+                return (float(x.numerator_as_long()) /
+                        float(x.denominator_as_long()))
+            return 0
+          steps = [val(dcl.name()) for dcl in m.decls()
+                   if dcl.name().startswith('v_')]
+          cand = {'lemma': name, 'cls': _PROBE_CLASS.get(q_sps), 'res': res,
+                  'qpm': float(val('qpm')) if mode == 'metric' else 120.0,
+                  'start': val('start_step'),
+                  'step': max(steps) if steps else 0}
+          found = None
+          if cand['cls'] and len(unconfirmed) + len(violations) < 3:
+            found = _search_real(cand['cls'], res, cand['qpm'], cand['start'],
+                                 cand['step'])
+          if found:
+            cand['step'] = found['step']
+            violations.append({
+                'label': 'L-C06 a rendered grid time is not recovered by '
+                         'quantize_to_step',
+                'values': cand, 'source': 'solver'})
+          else:
+            unconfirmed.append(cand)
+        elif r != 'unsat':
+          status, err = 'inconclusive', '%s: %s' % (name, r)
+        s2 = z3.Solver()
+        s2.set('timeout', 30000)
+        s2.add(base)
+        s2.add(q == want)
+        r2 = str(s2.check())
+        obligations.append({'lemma': name + ' (twin)',
+                            'statement': 'assumptions and conclusion jointly '
+                                         'satisfiable', 'expect': 'sat',
+                            'result': r2, 'discharged': r2 == 'sat',
+                            'seconds': 0, 'backend': 'z3 nlsat'})
+        if r2 != 'sat':
+          status, err = 'inconclusive', '%s twin: %s' % (name, r2)
+  out = {'obligations': obligations, 'status': status,
          'solver_queries': len(obligations),
          'solver_seconds': round(sum(o['seconds'] for o in obligations), 3)}
-  if not all(o['discharged'] for o in obligations):
+  if violations:
+    # confirmed on the real renderer + quantizer near the model point
+    out['status'] = 'violation'
+    out['violations'] = violations[:2]
+  elif unconfirmed:
+    # a standard-model counterexample is only a candidate (the deltas are
+    # existential): without a concrete instance nothing is reported
     out['status'] = 'inconclusive'
-    out['error'] = 'lemma not discharged: %s' % [
-        o['lemma'] for o in obligations if not o['discharged']]
+    out['error'] = ('standard-model counterexample(s) not reproduced on the '
+                    'real code: %s' % unconfirmed[:2])
+  elif err:
+    out['error'] = err
   return out
 
 
 FUNCS = {'lemma_tempo': _lemma}
+HARNESSES['lemma_tempo'] = h_tempo_witness
 
 
 def jobs(tier):
